@@ -60,7 +60,10 @@ class C13(Prop):
             tgt[kk] = fr(Fraction(rng.choice([-3, -2, 2, 3, 4]), 8) if by_weight else Fraction(rng.choice([-7, -2, 3, 9])))
         tgt[bad] = fr((Fraction(2, 8) if long_bad else Fraction(-2, 8)) if by_weight else Fraction(5 if long_bad else -5))
         c["ops"].append(["nlv", 0])
-        c["ops"].append(["rebal", t + 10, int(by_weight), 1, 1, "0", tgt])
+        # with a no-trade threshold the weight of the imbalance has to be priced too (same acquisition side).
+        # Dyadic thresholds: an imbalance weight of exactly 1/1000 (5 x 50 / 250000) against the double 0.001 is
+        # decided by rounding, which is not what this family is about (exact boundaries are C12's regime)
+        c["ops"].append(["rebal", t + 10, int(by_weight), 1, 1, rng.choice(["0", "0", "1/64", "1/1024"]), tgt])
         c["ops"].append(["nlv", 0])
         return c
 
@@ -139,6 +142,16 @@ class C13(Prop):
                     b, a = o["quotes"].get(k, (None, None))
                     if (a is None or b is None):
                         r.tags.add("acq-side-missing")
+                    # numbers of contracts: the imbalance is known without any price; neither its weight (threshold)
+                    # nor its trade can be priced when the side it would be acquired on is missing
+                    if o["op"][2] == 0 and o["op"][3] == 1 and k in o["quotes"] and st == "ok":
+                        imb = F(float(Fraction(v))) - o["pos_before"].get(k, Fraction(0))
+                        if abs(imb) >= 1 and (a is None if imb > 0 else b is None):
+                            r.fail("unpriced-leg-not-refused", op_index=i, contract=k, imbalance=float(imb),
+                                   bid=None if b is None else float(b), ask=None if a is None else float(a),
+                                   position_after=float(o["pos"].get(k, 0)), threshold=o["op"][5],
+                                   theorem="rebalance_missing_quote_errors",
+                                   clause="a rebalance that needs a missing quote fails before any trade is executed")
         return r
 
 
